@@ -367,7 +367,17 @@ def register(reg):
                     ("tunnel_connection_is_for_the_remote_origin", ("C10", "C01"), d["origin"].t == F(c, s, "TUN._remote_origin")),
                     ("tunnel_connection_gets_keepalive_expiry", ("C09",), e.z_bool(e.eq(st, e.coerce(st, d.get("keepalive_expiry", NONE), "opt:real"), c.new(s, "TUN._keepalive_expiry")))),
                 ]
-                sslobj = f(d["stream"].t, str_lit("ssl_object"))
+                # without TLS the stream is the one taken out of the CONNECT response's extensions (an opaque value)
+                sref = e.coerce(st, d["stream"], "ref:" + NS) if not isinstance(d["stream"], VRef) else d["stream"]
+                ro = c.new(s, "TUN._remote_origin")
+                resps = [x for x in c.events("ci.handle_request") if "result" in x.data]
+                ns = ref_of_val(dget(F(c, resps[-1].data["result"], "Response.extensions"), str_lit("network_stream"), none_val)) if resps else z3.IntVal(0)
+                secure = is_tls_scheme(F(c, ro, "Origin.scheme"))
+                out += [
+                    ("tunnel_tls_iff_https_or_wss", ("C10",), z3.If(secure, z3.BoolVal(len(tls) == 1), z3.BoolVal(len(tls) == 0))),
+                    ("tunnel_connection_gets_the_tunnelled_stream", ("C10", "C17", "C06"), z3.If(z3.BoolVal(len(tls) == 1), F(c, sref, "NS.wraps") == ns, sref.t == ns)),
+                ]
+                sslobj = f(sref.t, str_lit("ssl_object"))
                 negotiated = z3.And(sslobj != none_val, alpn_of(sslobj) == val_of_str(str_lit("h2")))
                 want_h2 = z3.Or(negotiated, z3.And(F(c, s, "TUN._http2"), z3.Not(F(c, s, "TUN._http1"))))
                 out.append(("tunnel_http2_iff_negotiated_or_http1_disabled", ("C10",), want_h2 if ev.name == "H2.__init__" else z3.Not(want_h2)))
